@@ -1010,6 +1010,19 @@ class Sim:
             self.ref.ancestors[u.jobid] for u in self.inflight()
         ):
             enabled += ['requp'] * 2
+        hs = self.handed()
+        # aimed replies (auto2): an upstream unit fails while a unit
+        # downstream of it is in flight for the same target; then the unit
+        # whose bookkeeping that failure touched answers
+        up = [i for i, u in enumerate(hs)
+              if any(v is not u and v.target in (u.target, '__all__')
+                     and u.jobid in self.ref.ancestors[v.jobid]
+                     for v in self.inflight())]
+        lost = [i for i, u in enumerate(hs) if u.key in self.lost_keys]
+        if kind == 'auto2' and up:
+            enabled += ['repup'] * 2
+        if kind == 'auto2' and lost:
+            enabled += ['replost'] * 3
         if self.handed():
             enabled += ['rep'] * 4
         if self.pending_any() or self.farm._cluster:
@@ -1020,6 +1033,11 @@ class Sim:
         if not self.pending_any() and not self.inflight():
             enabled += ['reqall'] * 2
         act = enabled[n % len(enabled)]
+        if act == 'repup':
+            return ['rep', up[a % len(up)], [1, 1, 2][b % 3], 0, c & 1]
+        if act == 'replost':
+            return ['rep', lost[a % len(lost)], [0, 0, 0, 1][b % 4],
+                    [0, 4095, c][b % 3], c & 1]
         if act == 'rep':
             outcome = [0, 0, 0, 0, 0, 0, 0, 1, 1, 2][b % 10]
             mask = [0, 4095, c, c][(b // 10) % 4]
